@@ -154,7 +154,7 @@ def module_layer(ctx):
     cases = []
     for cls, o, name, p, i, r in numeric_params(ctx):
         for tag, s, v in rp.probes(r, ctx.rng, extra=ctx.n(0, 3)):
-            if tag in LAYER_TAGS or not ctx.quick and not tag.startswith('sentinel'):
+            if tag in LAYER_TAGS or not ctx.quick and tag in ('inside', 'far-below'):   # 'N.0' / sentinels: reader level only
                 cases.append(mk('module', cls, name, i, tag, s, v, rp.observe_module(*pkgs[cls], model, name, s)))
     judge(ctx, 'module', cases, compare_model=False)
 
